@@ -8,5 +8,6 @@ func main() {
 		xlate.Spec{Pkg: "seq", Name: "TimeToMID"},
 		xlate.Spec{Pkg: "proxy/bulk", Name: "documentDelayed", Ignore: []string{"delays.Inc", "futureDelays.Inc"}},
 		xlate.Spec{Pkg: "proxyapi", Recv: "IngestorConfig", Name: "setDefaults"},
+		xlate.Spec{Pkg: "seq", Name: "NewID"},
 	)
 }
